@@ -411,7 +411,7 @@ func Run(c *vl.Ctx) {
 	if c.Quick() {
 		c.SetBudget(time.Since(c.Start) + 100*time.Second)
 	} else {
-		c.SetBudget(time.Since(c.Start) + 20*time.Minute)
+		c.SetBudget(time.Since(c.Start) + 14*time.Minute)
 	}
 	t := &tally{incomplete: []string{}, perProj: map[string]any{}, boundDone: map[string]int{}, mapDone: map[string]int{}, reported: map[string]bool{}}
 	prj := map[string]*sched.Project{}
@@ -657,7 +657,7 @@ func replay(c *vl.Ctx, dir string) {
 		fmt.Fprintln(os.Stderr, "replay: cannot read schedule.json:", err)
 		os.Exit(2)
 	}
-	e := sched.NewEngine(c, 1, false)
+	e := sched.NewEngine(c, 1, true)
 	defer e.Close()
 	a := e.Replay(&pr, sc.Default)
 	o := e.Replay(&pr, sc.Other)
